@@ -26,6 +26,8 @@ func asciiIdent(name string, n int) string {
 	s := symx.String(name, n)
 	for i := 0; i < len(s); i++ {
 		b := s[i]
+		symx.Assume(b >= '0') // the hull of the classes below, as plain bounds
+		symx.Assume(b <= 'z')
 		letter := symx.Or(symx.Or(b-'a' < 26, b-'A' < 26), b == '_')
 		if i == 0 {
 			symx.Assume(letter)
